@@ -27,7 +27,7 @@ mutual
     | loop (k : LoopK) (body : Body) (els : Body)       -- `els` only for Python for/while … else
     | wth (isAsync : Bool) (body : Body)                -- Python with / async with
     | tryc (body : Body) (handlers : Arms) (els : Body) (fin : Body)
-    | mtch (cases : Arms)                               -- match / switch
+    | mtch (cases : Arms) (dflt : Body)                 -- match / switch; `dflt = nil` : no default arm
     | clos (body : Body)                                -- Rust closure bound by `let`
   inductive Body where
     | nil
@@ -82,7 +82,7 @@ mutual
          | .py => (!hs.isNil || !fin.isNil) && (els.isNil || !hs.isNil)
          | .ts => els.isNil && hs.len ≤ 1 && (!hs.isNil || !fin.isNil)
          | .rs => false)
-    | .mtch cases => !cases.isNil && wfA l cases
+    | .mtch cases dflt => !cases.isNil && wfA l cases && wfB l dflt
     | .clos body => l == .rs && !body.isNil && wfB l body
   def wfB (l : Lang) : Body → Bool
     | .nil => true
@@ -99,7 +99,7 @@ mutual
     | .stmt => true
     | .ifc thn elifs els => elifs.isNil && !els.singleIf && commonB thn && commonB els
     | .loop k body els => (k == .forL || k == .whileL) && els.isNil && commonB body
-    | .mtch cases => commonA cases
+    | .mtch cases dflt => commonA cases && commonB dflt
     | _ => false
   def commonB : Body → Bool
     | .nil => true
@@ -121,7 +121,7 @@ mutual
     | .wth _ body => max d (docB m (d+1) body)
     | .tryc body hs els fin =>
         max d (max (docB m (d+1) body) (max (docA m (d+1) hs) (max (docB m (d+1) els) (docB m (d+1) fin))))
-    | .mtch cases => max d (docA m (d+m) cases)
+    | .mtch cases dflt => max d (max (docA m (d+m) cases) (docB m (d+m) dflt))
     | .clos body => max d (docB m (d+1) body)
   /-- deepest statement of a body whose statements sit at depth `d` (0 for an empty body) -/
   def docB (m : Nat) (d : Nat) : Body → Nat
@@ -189,6 +189,11 @@ def pyName : Py := .node "Name" (.cons (.node "Load" .nil) .nil)
 def pyStmt : Py :=
   .node "Expr" (.cons (.node "Call" (.cons pyName .nil)) .nil)
 
+/-- `case _:` arm (absent when the default body is empty) -/
+def pyDefaultCase : PyL → PyL
+  | .nil => .nil
+  | .cons h t => .cons (.node "match_case" (.cons (.node "MatchAs" .nil) (.cons h t))) .nil
+
 mutual
   def toPy : Ctl → Py
     | .stmt => pyStmt
@@ -199,7 +204,7 @@ mutual
     | .wth isAsync body =>
         .node (if isAsync then "AsyncWith" else "With") (.cons (.node "withitem" (.cons pyName .nil)) (toPyB body))
     | .tryc body hs els fin => .node "Try" (toPyB body ++ (toPyHandlers hs ++ (toPyB els ++ toPyB fin)))
-    | .mtch cases => .node "Match" (.cons pyName (toPyCases cases))
+    | .mtch cases dflt => .node "Match" (.cons pyName (toPyCases cases ++ pyDefaultCase (toPyB dflt)))
     | .clos body => .node "FunctionDef" (.cons (.node "arguments" .nil) (toPyB body))  -- nested def
   def toPyB : Body → PyL
     | .nil => .nil
@@ -244,6 +249,12 @@ def tsParen : TS := .node "parenthesized_expression" (tsl [tk "(", tk "identifie
 
 def tsBlockOf (kids : TSL) : TS := .node "statement_block" (.cons (tk "{") (kids ++ tsl [tk "}"]))
 
+/-- `default:` arm of a switch (absent when the default body is empty) -/
+def tsDefault : TSL → TSL
+  | .nil => .nil
+  | .cons h t => .cons (.node "switch_default" (.cons (tk "default") (.cons (tk ":")
+        (.cons h t ++ tsl [.node "break_statement" (tsl [tk "break", tk ";"])])))) .nil
+
 mutual
   def toTs : Ctl → TS
     | .stmt => tsCall
@@ -265,8 +276,9 @@ mutual
     | .wth _ body => tsBlockOf (toTsB body)          -- not available in TS: rendered as a bare block
     | .tryc body hs _ fin =>
         .node "try_statement" (.cons (tk "try") (.cons (tsBlockOf (toTsB body)) (toTsCatch hs ++ toTsFinally fin)))
-    | .mtch cases =>
-        .node "switch_statement" (tsl [tk "switch", tsParen, .node "switch_body" (.cons (tk "{") (toTsCases cases ++ tsl [tk "}"]))])
+    | .mtch cases dflt =>
+        .node "switch_statement" (tsl [tk "switch", tsParen,
+          .node "switch_body" (.cons (tk "{") (toTsCases cases ++ (tsDefault (toTsB dflt) ++ tsl [tk "}"])))])
     | .clos body => tsBlockOf (toTsB body)            -- not available in TS: bare block
   def toTsB : Body → TSL
     | .nil => .nil
@@ -297,6 +309,11 @@ def rsCond : TS := .node "binary_expression" (tsl [tk "identifier", tk ">", tk "
 def rsBlockOf (kids : TSL) : TS := .node "block" (.cons (tk "{") (kids ++ tsl [tk "}"]))
 def rsExprStmt (e : TS) : TS := .node "expression_statement" (tsl [e])
 
+/-- `_ => { … }` arm (absent when the default body is empty) -/
+def rsDefault : TSL → TSL
+  | .nil => .nil
+  | .cons h t => .cons (.node "match_arm" (tsl [.node "match_pattern" (tsl [tk "_"]), tk "=>", rsBlockOf (.cons h t)])) .nil
+
 mutual
   /-- the expression node of a construct (an `if` after `else` appears bare) -/
   def toRsE : Ctl → TS
@@ -310,8 +327,9 @@ mutual
           .node "range_expression" (tsl [tk "integer_literal", tk "..", tk "identifier"]), rsBlockOf (toRsB body)])
     | .wth _ body => rsBlockOf (toRsB body)
     | .tryc body _ _ _ => rsBlockOf (toRsB body)
-    | .mtch cases =>
-        .node "match_expression" (tsl [tk "match", tk "identifier", .node "match_block" (.cons (tk "{") (toRsArms cases ++ tsl [tk "}"]))])
+    | .mtch cases dflt =>
+        .node "match_expression" (tsl [tk "match", tk "identifier",
+          .node "match_block" (.cons (tk "{") (toRsArms cases ++ (rsDefault (toRsB dflt) ++ tsl [tk "}"])))])
     | .clos body =>
         .node "closure_expression" (tsl [.node "closure_parameters" (tsl [tk "|", tk "|"]), rsBlockOf (toRsB body)])
   /-- the statement node of a construct inside a block -/
@@ -354,7 +372,7 @@ mutual
     | .loop _ a b => noMatchB a && noMatchB b
     | .wth _ a => noMatchB a
     | .tryc a b c e => noMatchB a && noMatchA b && noMatchB c && noMatchB e
-    | .mtch _ => false
+    | .mtch _ _ => false
     | .clos a => noMatchB a
   def noMatchB : Body → Bool
     | .nil => true
